@@ -252,7 +252,12 @@ pub trait Lend {
     }
 }
 
-#[unimock(api = OwnMock)]
+pub fn real_own_single(_u: &Unimock, _x: u8) -> Tracked {
+    // the real implementation hands out fresh values
+    Tracked::new(&tl_tracker(), 3_000_000 + tl_val_id() % 1_000_000)
+}
+
+#[unimock(api = OwnMock, unmock_with = [real_own_single, _, _, _, _, _, _, _])]
 pub trait Own {
     fn own_single(&self, x: u8) -> Tracked;
     fn own_multi(&self, x: u8) -> TrackedC;
@@ -261,6 +266,7 @@ pub trait Own {
     fn own_tup(&self, x: u8) -> (&u32, TrackedC);
     fn own_tup1(&self, x: u8) -> (&u32, Tracked);
     fn own_vec(&self, x: u8) -> Vec<Result<&u32, Tracked>>;
+    fn own_tup3(&self, x: u8) -> (&u32, Tracked, Tracked);
 }
 
 // ---------------------------------------------------------------------------------------------
@@ -399,6 +405,7 @@ pub fn type_ids() -> &'static Vec<(TypeId, M)> {
             (TypeId::of::<OwnMock::own_tup>(), M::OwnTup),
             (TypeId::of::<OwnMock::own_tup1>(), M::OwnTup1),
             (TypeId::of::<OwnMock::own_vec>(), M::OwnVec),
+            (TypeId::of::<OwnMock::own_tup3>(), M::OwnTup3),
             (TypeId::of::<AsyncAMock::af>(), M::Af),
             (TypeId::of::<AsyncAMock::ag>(), M::Ag),
             (TypeId::of::<AsyncTMock::at>(), M::At),
